@@ -12,14 +12,14 @@ import (
 func init() { runners["C16"] = runC16 }
 
 type c16Case struct {
-	Client   bool   `json:"client"`
-	Trigger  string `json:"trigger"` // local-close | peer-close | proto-error | read-limit | closeread-data
-	Echo     string `json:"echo"`    // early | late | never   (peer's answer to our Close)
-	Writers  int    `json:"writers"`
-	Pingers  int    `json:"pingers"`
-	Flate    bool   `json:"flate"`
-	ThenClose bool  `json:"then_user_close"` // after an error-triggered close the user calls Close as well
-	Seed     int64  `json:"seed"`
+	Client    bool   `json:"client"`
+	Trigger   string `json:"trigger"` // local-close | peer-close | proto-error | read-limit | closeread-data
+	Echo      string `json:"echo"`    // early | late | never   (peer's answer to our Close)
+	Writers   int    `json:"writers"`
+	Pingers   int    `json:"pingers"`
+	Flate     bool   `json:"flate"`
+	ThenClose bool   `json:"then_user_close"` // after an error-triggered close the user calls Close as well
+	Seed      int64  `json:"seed"`
 }
 
 // runC16Case returns the frame trace seen by the peer and a violation, if any.
